@@ -2,7 +2,7 @@
 import ast
 import math
 from .core import *
-from .interp import EXEC, GENERIC, SPEC, I, B, R, arr, Frame
+from .interp import EXEC, GENERIC, SPEC, SPECULATE, I, B, R, arr, Frame
 
 
 class InterpBuiltins:
@@ -520,6 +520,10 @@ class InterpBuiltins:
             default = args[1] if len(args) > 1 else None
             has = self.rec_contains(r, key)
             if self.mode == EXEC:
+                try:
+                    return self.ite_chain([(has, self.rec_load(r, key)), (True, default)])
+                except Unsupported:
+                    pass
                 if self.run.decide(has):
                     return self.rec_load(r, key)
                 return default
@@ -683,8 +687,9 @@ class InterpBuiltins:
         if len(doms) == 1 and len(names) > 1:
             doms = doms * len(names)
         consts, guards, vals = [], [], []
+        self.qdepth = getattr(self, 'qdepth', 0) + 1
         for nme, d in zip(names, doms):
-            c, g, v = self.quant_domain(nme, d)
+            c, g, v = self.quant_domain(f'{self.qdepth}{nme}', d)
             consts.extend(c)
             if g is not None:
                 guards.append(g)
@@ -695,6 +700,7 @@ class InterpBuiltins:
             body = self.as_bool(self.truthy(self.call_lambda(lam, vals)))
         finally:
             self.mode = saved
+            self.qdepth -= 1
         if guards:
             g = z3.And(guards) if len(guards) > 1 else guards[0]
             body = z3.Implies(g, body) if is_forall else z3.And(g, body)
@@ -704,13 +710,13 @@ class InterpBuiltins:
         """domain designator -> (bound consts, guard or None, value)"""
         if isinstance(d, Builtin) and d.name in ('str', 'int', 'float', 'bool'):
             ty = {'str': STR, 'int': INT, 'float': REAL, 'bool': BOOL}[d.name]
-            c = self.run.fresh('q_' + name, sort_of(ty))
+            c = z3.Const('q' + name, sort_of(ty))
             return [c], None, SV(c, ty)
         if isinstance(d, ClassV):
             if self.ts.is_enum_class(d.name):
-                c = self.run.fresh('q_' + name, I)
+                c = z3.Const('q' + name, I)
                 return [c], self.ts.enum_domain(c, d.name), SV(c, TEnum(d.name))
-            c = self.run.fresh('q_' + name, Ref)
+            c = z3.Const('q' + name, Ref)
             g = z3.And(c != NULL, self.heap.get('alloc', arr(Ref, B))[c])
             return [c], g, ObjV(c, d.name)
         if isinstance(d, (ListV, SetV, SymSet, DictV, ValuesView)):
